@@ -890,8 +890,23 @@ func (m c12) judge(c *fw.Ctx, enc string, in []gts.Feature) (sout []*c12F, ok bo
 	}
 	s2 := c12Snap(out2)
 	if !c12SameList(sout, s2) {
+		// classes whose first pass already was a listed finding: what that pass
+		// left (members of a flattened join, out of order) is not a repaired
+		// table, and what the second pass makes of it is the same finding.
+		firstKnown := map[string][]string{}
+		for _, v := range vv {
+			if v.st == c12Known {
+				firstKnown[v.cls] = v.ids
+			}
+		}
 		attributed := false
 		for _, v := range m.classify(c, sout, s2) {
+			if ids, ok := firstKnown[v.cls]; ok && (v.st == c12Merged || v.st == c12Bad) {
+				for _, id := range ids {
+					c.Known(id, enc)
+				}
+				return sout, false
+			}
 			switch v.st {
 			case c12Known:
 				attributed = true
